@@ -769,6 +769,30 @@ def p_chain( ctx ):
     return res
 
 
+@rule( 'K-TIMEOUT', props=( 'C12', 'C13' ), floor=1 )
+def k_timeout( ctx ):
+    """connector.collect: the time-out applies to EACH reply - the caller's value is handed to await_response unchanged inside the loop.  Made a
+    deadline for the whole run ( the remainder of timeout since collect began ), every reply after the first `timeout` seconds of a run is
+    awaited with time-out 0: replies already buffered are still found ( pipelined, bundled ), a request just sent is not - the synchronous
+    run aborts where the pipelined run of the same list succeeds"""
+    res = Result( 'K-TIMEOUT' )
+    src = ctx.src( 'server/enip/client.py' )
+    fn = src.get( 'connector.collect' )
+    calls = [ c for c in ast.walk( fn ) if is_call_to( c, 'await_response' ) ]
+    if not calls:
+        raise AnalysisError( 'connector.collect: await_response( ... ) not found' )
+    params = { a.arg for a in fn.args.args }
+    for c in calls:
+        kw = { k.arg: k.value for k in c.keywords }
+        t = kw.get( 'timeout' )
+        stores = [ a for a in ast.walk( fn ) if isinstance( a, ( ast.Assign, ast.AugAssign )) and any( isinstance( x, ast.Name ) and x.id == 'timeout' for tg in ( a.targets if isinstance( a, ast.Assign ) else [ a.target ] ) for x in ast.walk( tg )) ]
+        if isinstance( t, ast.Name ) and t.id in params and not stores:
+            res.ok( src, c, 'each reply is awaited with the caller\'s time-out, unchanged' )
+        else:
+            res.bad( src, c, 'connector.collect awaits a reply with timeout=%s' % ( norm_text( t ) if t is not None else 'None (absent)' ), 'the time-out is per reply: as a deadline for the whole run it makes a long synchronous run abort ( every later reply awaited with time-out 0 ) where the same list pipelined or bundled succeeds' )
+    return res
+
+
 @rule( 'P-SEPARATORS', props=( 'C20', ), floor=3 )
 def p_separators( ctx ):
     """tnet_from discards the `ignore` symbols BETWEEN messages wherever input can arrive there.  Input arrives at the chain site inside the
